@@ -152,6 +152,22 @@ def helpers_work(n, variant, out):
     if variant == 'jax':
         chk('mul(A,B)', np.asarray(H.mul(conv(mats), conv(B))), np.einsum('ijk,jlk->ilk', mats, B), '(n,)')
     chk('ddot(A,B)', np.asarray(H.ddot(conv(mats), conv(B))), np.einsum('ijk,ijk->k', mats, B), '(n,)')
+    # the finite element layout (cells, quadrature points) for EVERY small cell count: shapes in which the number of cells
+    # coincides with the tensor size must not change which product is taken
+    for nel in (1, 2, 3, 4, 9):
+        q = nm // nel
+        K = nel * q
+        lab = f'({nel},{q})'
+        A4 = mats[:, :, :K].reshape(n, n, nel, q)
+        V3 = V[:, :K].reshape(n, nel, q)
+        B4 = B[:, :, :K].reshape(n, n, nel, q)
+        chk('mul(A,x)', np.asarray(H.mul(conv(A4), conv(V3))).reshape(n, K), np.einsum('ijk,jk->ik', mats[:, :, :K], V[:, :K]), lab)
+        if variant == 'jax':
+            chk('mul(A,B)', np.asarray(H.mul(conv(A4), conv(B4))).reshape(n, n, K),
+                np.einsum('ijk,jlk->ilk', mats[:, :, :K], B[:, :, :K]), lab)
+        chk('ddot(A,B)', np.asarray(H.ddot(conv(A4), conv(B4))).reshape(K), np.einsum('ijk,ijk->k', mats[:, :, :K], B[:, :, :K]), lab)
+        chk('dot(x,y)', np.asarray(H.dot(conv(V3), conv(V3[:, ::-1]))).reshape(K) if nel > 1 else np.asarray(H.dot(conv(V3), conv(V3))).reshape(K),
+            (V[:, :K].reshape(n, nel, q) * (V[:, :K].reshape(n, nel, q)[:, ::-1] if nel > 1 else V[:, :K].reshape(n, nel, q))).sum(axis=0).reshape(K), lab)
     # vectors: all ordered pairs
     U = np.repeat(vecs, nv, axis=1)
     W = np.tile(vecs, (1, nv))
@@ -357,6 +373,21 @@ def form_work(fname, meshlabel, tier, seed, out):
                 return False
             Jd = J.toarray()
             ui = b.interpolate(x)
+            # the elemental call path returns the same pair as elemental data
+            if lab in ('zero', 'pattern1'):
+                try:
+                    Jc, rc = nl.elemental(b, x=x)
+                    Je, re_ = Jc.todefault(), np.asarray(rc.todefault())
+                    if Je.shape != J.shape or np.abs((Je - J).toarray()).max() > 1e-12 * (1 + np.abs(Jd).max()) \
+                            or re_.shape != r.shape or np.abs(re_ - r).max() > 1e-12 * (1 + np.abs(r).max()):
+                        tr = ' (the vector has the opposite sign)' if re_.shape == r.shape and np.abs(re_ + r).max() <= 1e-12 * (
+                            1 + np.abs(r).max()) and np.abs(r).max() > 0 else ''
+                        bad('elemental-vs-assemble', f"NonlinearForm.elemental(basis, x) at {lab} does not describe the pair returned by "
+                            f"assemble(basis, x){tr}", point=lab, basis=blab)
+                        return False
+                except Exception as e:
+                    bad('elemental-exception', repr(e), point=lab)
+                    return False
             # residual
             want_r = -residual_vec(x)
             if r.shape != want_r.shape or np.abs(r - want_r).max() > 1e-10 * (1 + np.abs(want_r).max()):
